@@ -51,11 +51,11 @@ theorem consistent_preserved (g : Grid) (op : Op) (hI : Inv g) (hv : ValidOp g.e
     · exact hI
     · split
       · exact hI
-      next vr hvr =>
-        rcases vr with _ | l
+      next vg hvg =>
+        rcases vg with _ | ns
         · exact (setGptsCore_none_inv g hI).1
-        · obtain ⟨hl, hg⟩ := validate_good hvr hv
-          exact (setGptsCore_inv g (l.map pyInt) hI (by simpa using hl) hg).1
+        · obtain ⟨hl, hg⟩ := validateGpts_good hvg hv
+          exact (setGptsCore_inv g ns hI hl hg).1
   | setSampling v =>
     simp only [step, setSampling]
     split
@@ -310,15 +310,13 @@ theorem error_leaves_unchanged (g : Grid) (op : Op) (e : String) (hW : WF g) (h 
     by_cases hl : g.lockGpts = true
     · simp [hl]
     · simp only [hl] at h ⊢
-      rcases hv : validate g.dims v with e' | vr
+      rcases hv : validateGpts g.dims v with e' | vg
       · simp [hv]
       · simp only [hv] at h ⊢
         refine setGptsCore_err g _ e hW ?_ h
         intro ns hns
-        rcases vr with _ | l
-        · simp at hns
-        · simp only [Option.map_some, Option.some.injEq] at hns; subst hns
-          simpa using validate_len hv
+        subst hns
+        exact validateGpts_len hv
   | setSampling v =>
     simp only [step, setSampling] at h ⊢
     by_cases hl : g.lockSampling = true
@@ -345,13 +343,13 @@ theorem init_consistent (dims : Nat) (ep : List Bool) (extent gpts sampling : Va
     (h : init dims ep extent gpts sampling lE lG lS = .ok g) : Inv g := by
   rcases hve : validate dims extent with e1 | eo
   · simp [init, hve] at h
-  rcases hvg : validate dims gpts with e1 | go
+  rcases hvg : validateGpts dims gpts with e1 | go
   · simp [init, hve, hvg] at h
   rcases hvs : validate dims sampling with e1 | so
   · simp [init, hve, hvg, hvs] at h
   rcases eo with _ | rs <;> rcases go with _ | nl <;> rcases so with _ | ds
   · -- nothing given
-    have h1 := validate_none hve; have h2 := validate_none hvg; have h3 := validate_none hvs
+    have h1 := validate_none hve; have h2 := validateGpts_none hvg; have h3 := validate_none hvs
     subst h1 h2 h3
     simp only [init, hve, hvg, hvs] at h
     simp [adjustExtent, adjustGpts, adjustSampling, Res.bind] at h
@@ -362,7 +360,7 @@ theorem init_consistent (dims : Nat) (ep : List Bool) (extent gpts sampling : Va
     · intro x hx; cases hx
     · intro hx; rcases hls hx with h | ⟨h, _⟩ <;> exact absurd rfl h
   · -- sampling only
-    have h1 := validate_none hve; have h2 := validate_none hvg
+    have h1 := validate_none hve; have h2 := validateGpts_none hvg
     subst h1 h2
     obtain ⟨hl, hp⟩ := validate_pos hvs hS
     simp only [init, hve, hvg, hvs] at h
@@ -376,28 +374,28 @@ theorem init_consistent (dims : Nat) (ep : List Bool) (extent gpts sampling : Va
   · -- gpts only
     have h1 := validate_none hve; have h3 := validate_none hvs
     subst h1 h3
-    obtain ⟨hl, hg⟩ := validate_good hvg hG
+    obtain ⟨hl, hg⟩ := validateGpts_good hvg hG
     simp only [init, hve, hvg, hvs] at h
     simp [adjustExtent, adjustSampling, Res.bind] at h
     subst h
     refine inv_partial _ hep (Or.inl rfl) ?_ ?_ ?_ ?_
     · intro x hx; cases hx
-    · intro x hx; cases hx; exact ⟨by simpa using hl, hg⟩
+    · intro x hx; cases hx; exact ⟨hl, hg⟩
     · intro x hx; cases hx
     · intro hx; rcases hls hx with h | ⟨h, _⟩ <;> exact absurd rfl h
   · -- gpts and sampling: extent := gpts × sampling
     have h1 := validate_none hve
     subst h1
-    obtain ⟨hl, hg⟩ := validate_good hvg hG
+    obtain ⟨hl, hg⟩ := validateGpts_good hvg hG
     obtain ⟨hdl, hp⟩ := validate_pos hvs hS
-    have hnl : (nl.map pyInt).length = dims := by simpa using hl
-    have hEl := zipWith3_length adjustExtentElt dims (nl.map pyInt) ds ep hnl hdl hep
+    have hnl : nl.length = dims := hl
+    have hEl := zipWith3_length adjustExtentElt dims nl ds ep hnl hdl hep
     simp only [init, hve, hvg, hvs] at h
     simp [validate_ne_none hvs, adjustExtent, hEl, Res.bind] at h
     subst h
-    exact inv_extent_computed _ (nl.map pyInt) ds hep hnl hdl hp hg rfl rfl rfl
+    exact inv_extent_computed _ nl ds hep hnl hdl hp hg rfl rfl rfl
   · -- extent only
-    have h2 := validate_none hvg; have h3 := validate_none hvs
+    have h2 := validateGpts_none hvg; have h3 := validate_none hvs
     subst h2 h3
     obtain ⟨hl, hp⟩ := validate_pos hve hE
     simp only [init, hve, hvg, hvs] at h
@@ -409,7 +407,7 @@ theorem init_consistent (dims : Nat) (ep : List Bool) (extent gpts sampling : Va
     · intro x hx; cases hx
     · intro hx; rcases hls hx with h | ⟨_, h⟩ <;> exact absurd rfl h
   · -- extent and sampling: gpts := ceil(extent / sampling), then the sampling is recomputed
-    have h2 := validate_none hvg
+    have h2 := validateGpts_none hvg
     subst h2
     obtain ⟨hl, hp⟩ := validate_pos hve hE
     obtain ⟨hdl, hdp⟩ := validate_pos hvs hS
@@ -423,18 +421,18 @@ theorem init_consistent (dims : Nat) (ep : List Bool) (extent gpts sampling : Va
     have h3 := validate_none hvs
     subst h3
     obtain ⟨hl, hp⟩ := validate_pos hve hE
-    obtain ⟨hnl0, hg⟩ := validate_good hvg hG
-    have hnl : (nl.map pyInt).length = dims := by simpa using hnl0
-    have hSl := zipWith3_length adjustSamplingElt dims rs (nl.map pyInt) ep hl hnl hep
+    obtain ⟨hnl0, hg⟩ := validateGpts_good hvg hG
+    have hnl : nl.length = dims := hnl0
+    have hSl := zipWith3_length adjustSamplingElt dims rs nl ep hl hnl hep
     simp only [init, hve, hvg, hvs] at h
     simp [adjustSampling, hSl, Res.bind] at h
     subst h
     exact inv_sampling_recomputed _ rs _ hep hl hnl hp hg rfl rfl rfl
   · -- all three: the given sampling is overwritten by extent / gpts ("overspecified grid")
     obtain ⟨hl, hp⟩ := validate_pos hve hE
-    obtain ⟨hnl0, hg⟩ := validate_good hvg hG
-    have hnl : (nl.map pyInt).length = dims := by simpa using hnl0
-    have hSl := zipWith3_length adjustSamplingElt dims rs (nl.map pyInt) ep hl hnl hep
+    obtain ⟨hnl0, hg⟩ := validateGpts_good hvg hG
+    have hnl : nl.length = dims := hnl0
+    have hSl := zipWith3_length adjustSamplingElt dims rs nl ep hl hnl hep
     simp only [init, hve, hvg, hvs] at h
     simp [validate_ne_none hve, adjustSampling, hSl, Res.bind] at h
     subst h
@@ -716,15 +714,36 @@ theorem endpoint_single_point_consistent_counterexample :
     (by decide +kernel) (by decide +kernel) (by decide +kernel) (by decide +kernel) (by decide +kernel)
   revert h1; decide +kernel
 
-/-- `gpts = 0` is accepted (no positivity check in the setters): the assignment neither raises nor leaves the grid
-consistent — `_safe_divide` sets the sampling to 0 and the extent stays 1.  Outside the guard `gpts ≥ 1` of
-`consistent_preserved`; recorded as a known finding. -/
-theorem zero_gpts_consistent_counterexample :
+/-- non-positive gpts are rejected and change nothing (repaired in /repo: the gpts setter and the constructor now call the
+existing `validate_gpts`; before, `gpts = 0` was accepted and left extent 1 with sampling 0) -/
+theorem nonpositive_gpts_rejected (g : Grid) (x : Rat) (hl : g.lockGpts = false) (hd : 0 < g.dims) (hx : pyInt x ≤ 0) :
+    step g (.setGpts (.scalar x)) = (g, some "value_error") := by
+  have hrep : (List.replicate g.dims x).map pyInt = List.replicate g.dims (pyInt x) := by simp
+  have : ((List.replicate g.dims (pyInt x)).all fun n => decide (0 < n)) = false := by
+    rw [List.all_eq_false]
+    exact ⟨pyInt x, List.mem_replicate.mpr ⟨by omega, rfl⟩, by simp; omega⟩
+  simp [step, setGpts, hl, validateGpts, validate, hrep, this]
+
+/-- a *negative* extent is still accepted (no sign check on extents and samplings): with a sampling and no gpts the
+setter computes `gpts = ⌈−2/2.4⌉ = 0`, `_safe_divide` sets the sampling to 0 and the extent stays −2 — neither an
+exception nor a consistent grid.  Outside the guard `extent > 0` of `consistent_preserved`; recorded as a known finding. -/
+theorem negative_extent_consistent_counterexample :
     ¬ (∀ (g : Grid) (op : Op) (r : Rat) (n : Int) (d : Rat), (step g op).2 = none →
         (step g op).1.endpoint = [false] → (step g op).1.extent = some [r] → (step g op).1.gpts = some [n] →
         (step g op).1.sampling = some [d] → r = adjustExtentElt n d false) := by
   intro h
-  have h1 := h ⟨1, [false], some [1], some [4], some [1/4], false, false, false⟩ (.setGpts (.scalar 0)) 1 0 0
+  have h1 := h ⟨1, [false], none, none, some [12/5], false, false, false⟩ (.setExtent (.scalar (-2))) (-2) 0 0
+    (by decide +kernel) (by decide +kernel) (by decide +kernel) (by decide +kernel) (by decide +kernel)
+  revert h1; decide +kernel
+
+/-- gpts = 0 computed from a zero extent stay 0 when a non-zero extent is assigned afterwards (only the sampling is
+recomputed, `_safe_divide(1, 0) = 0`): extent 1 with gpts 0 and sampling 0.  Recorded as a known finding. -/
+theorem stale_zero_gpts_consistent_counterexample :
+    ¬ (∀ (g : Grid) (op : Op) (r : Rat) (n : Int) (d : Rat), (step g op).2 = none →
+        (step g op).1.endpoint = [false] → (step g op).1.extent = some [r] → (step g op).1.gpts = some [n] →
+        (step g op).1.sampling = some [d] → r = adjustExtentElt n d false) := by
+  intro h
+  have h1 := h ⟨1, [false], some [0], some [0], some [0], false, false, false⟩ (.setExtent (.scalar 1)) 1 0 0
     (by decide +kernel) (by decide +kernel) (by decide +kernel) (by decide +kernel) (by decide +kernel)
   revert h1; decide +kernel
 
